@@ -370,10 +370,11 @@ open XSM.Bisim XSM.Term
 theorem eraseQ_eq_iff (a b : St) :
     eraseQ a = eraseQ b ↔
       (a.cfg = b.cfg ∧ a.hist = b.hist ∧ a.status = b.status ∧ a.ctx = b.ctx ∧ a.err = b.err ∧
-       a.errors = b.errors ∧ a.trace = b.trace ∧ a.queue.map (·.ev) = b.queue.map (·.ev)) := by
+       a.errors = b.errors ∧ a.trace = b.trace ∧ a.queue.map (·.ev) = b.queue.map (·.ev) ∧
+       a.expCut = b.expCut) := by
   rw [← sim_eq_iff]
-  exact ⟨fun h => ⟨h.cfg, h.hist, h.status, h.ctx, h.err, h.errors, h.trace, h.queue⟩,
-    fun ⟨h1, h2, h3, h4, h5, h6, h7, h8⟩ => ⟨h1, h2, h3, h4, h5, h6, h7, h8⟩⟩
+  exact ⟨fun h => ⟨h.cfg, h.hist, h.status, h.ctx, h.err, h.errors, h.trace, h.queue, h.expCut⟩,
+    fun ⟨h1, h2, h3, h4, h5, h6, h7, h8, h9⟩ => ⟨h1, h2, h3, h4, h5, h6, h7, h8, h9⟩⟩
 
 /-- the command-level relation, spelled out: as above, the traces related by `T`, and the queues compared
     only while the interpreter is running -/
@@ -381,7 +382,7 @@ theorem agree_spelled (T : List String → List String → Prop) (a b : St) :
     Agrees T a b ↔
       (a.cfg = b.cfg ∧ a.hist = b.hist ∧ a.status = b.status ∧ a.ctx = b.ctx ∧ a.err = b.err ∧
        a.errors = b.errors ∧ T a.trace b.trace ∧
-       (a.status = "running" → a.queue.map (·.ev) = b.queue.map (·.ev))) := agree_iff a b
+       (a.status = "running" → a.queue.map (·.ev) = b.queue.map (·.ev)) ∧ a.expCut = b.expCut) := agree_iff a b
 
 /-- … and with equal traces it is equality of the erasures of what a caller can see -/
 theorem agree_eq_eraseQ (a b : St) : Agrees Eq a b ↔ eraseQ (dropDead a) = eraseQ (dropDead b) :=
